@@ -229,7 +229,7 @@ the former hypothesis "names stay distinct after `snake_to_camel`" is a conseque
 acceptance.  The other clash classes (field vs. `backing_` / `<param>_` / `has_<field>`, nested
 enum vs. view method, type vs. `<Struct>View`…) are still open findings; they are decided by
 the executable `Names.clashes`, tied to g++ by the correspondence, and characterised by
-`C07_class_scope_clean_partial`; their witnesses are in `C07_names_counterexample`. -/
+`C07_clash_scopes`; their witnesses are in `C07_names_counterexample`. -/
 /-- **Accepted ⇒ the helper types of a structure have pairwise distinct names**: the nested
 view classes of the non-alias virtual fields (`EmbossReservedVirtual<Camel>View`,
 `EmbossReservedDollarVirtual<Name>View` for `$size_in_bytes` & co.) and the validators of the
@@ -295,6 +295,89 @@ theorem C07_names_counterexample :
     clean (namespaceScope { enums := [s "EnumTraits"] }) = false ∧
     clean (namespaceScope { enums := [s "MaxSizeInBytes"], owner := some { name := s "Foo", fields := [fConst "$max_size_in_bytes"] } }) = false ∧
     clean (referenceScope { name := s "Storage", fields := [fConst "$max_size_in_bytes"] }) = false := by
+  decide
+
+/-- **The clash scopes, proved** (not only evaluated on witnesses): `clean` decides exactly the
+declarative well-formedness of a scope — any two declarations of the same identifier belong to
+one overload / redeclaration group — and each open clash class of the view class makes *every*
+structure of that shape ill-formed:
+* a field named like a member every view class has (`backing_`, `Ok`-style names cannot occur:
+  fields are snake_case — but `backing_` and, with parameters, `parameters_initialized_` can);
+* a field `<p>_` next to a parameter `<p>` (the parameter's data member);
+* fields `x` and `has_x`;
+* a nested enum named like a member of the view class (`Ok`, `Storage`, `IsComplete`, …). -/
+theorem C07_clash_scopes :
+    (∀ ds, clean ds = true ↔
+      ds.Pairwise (fun a b => a.ident = b.ident → ∃ g, a.group = some g ∧ b.group = some g)) ∧
+    (∀ st f, f ∈ st.fields → isDollar f.name = false → f.name ∈ fixedMembers st →
+      clean (classScope st) = false) ∧
+    (∀ st p f, p ∈ st.params → f ∈ st.fields → isDollar f.name = false → f.name = p ++ s "_" →
+      clean (classScope st) = false) ∧
+    (∀ st f g, f ∈ st.fields → g ∈ st.fields → isDollar f.name = false → isDollar g.name = false →
+      g.name = s "has_" ++ f.name → clean (classScope st) = false) ∧
+    (∀ st e, e ∈ st.nestedEnums → e ∈ fixedMembers st → clean (classScope st) = false) := by
+  refine ⟨?_, ?_, ?_, ?_, ?_⟩
+  · intro ds
+    rw [clean_iff]
+    suffices key : ∀ a b : Decl, compatible a b = true ↔
+        (a.ident = b.ident → ∃ g, a.group = some g ∧ b.group = some g) from
+      ⟨fun h => h.imp (fun {a b} hab => (key a b).mp hab), fun h => h.imp (fun {a b} hab => (key a b).mpr hab)⟩
+    intro a b
+    unfold compatible
+    cases ha : a.group <;> cases hb : b.group <;>
+      simp only [Bool.or_false, Bool.or_eq_true, bne_iff_ne, ne_eq, beq_iff_eq]
+    · constructor
+      · intro h e; exact absurd e h
+      · intro h e; obtain ⟨g, hg, _⟩ := h e; cases hg
+    · constructor
+      · intro h e; exact absurd e h
+      · intro h e; obtain ⟨g, hg, _⟩ := h e; cases hg
+    · constructor
+      · intro h e; exact absurd e h
+      · intro h e; obtain ⟨g, _, hg⟩ := h e; cases hg
+    · constructor
+      · rintro (h | h) e
+        · exact absurd e h
+        · exact ⟨_, rfl, by rw [h]⟩
+      · intro h
+        by_cases e : a.ident = b.ident
+        · obtain ⟨g, h1, h2⟩ := h e
+          cases h1; cases h2; exact Or.inr rfl
+        · exact Or.inl e
+  · intro st f hf hd hm
+    rw [classScope_eq, List.append_assoc, List.append_assoc]
+    refine not_clean_of_split _ _ { ident := f.name, what := "fixed member" }
+      { ident := f.name, what := "field accessor" } ?_ ?_ (incompatible_of_ident _ _ rfl rfl)
+    · exact List.mem_map.mpr ⟨f.name, hm, rfl⟩
+    · exact List.mem_append_right _ (List.mem_append_left _ (accessor_mem st f hf hd).1)
+  · intro st p f hp hf hd hn
+    rw [classScope_eq, List.append_assoc]
+    refine not_clean_of_split _ _ { ident := p ++ s "_", what := "parameter member" }
+      { ident := f.name, what := "field accessor" } ?_ ?_ (incompatible_of_ident _ _ hn.symm rfl)
+    · refine List.mem_append_right _ (List.mem_flatMap.mpr ⟨p, hp, ?_⟩)
+      simp
+    · exact List.mem_append_left _ (accessor_mem st f hf hd).1
+  · intro st f g hf hg hdf hdg hn
+    refine not_clean_of_mem _ { ident := s "has_" ++ f.name, what := "field has_" }
+      { ident := g.name, what := "field accessor" } ?_ ?_ ?_ (incompatible_of_ident _ _ hn.symm rfl)
+    · rw [classScope_eq]
+      exact List.mem_append_left _ (List.mem_append_right _ (accessor_mem st f hf hdf).2)
+    · rw [classScope_eq]
+      exact List.mem_append_left _ (List.mem_append_right _ (accessor_mem st g hg hdg).1)
+    · intro h
+      have := congrArg Decl.what h
+      simp at this
+  · intro st e he hm
+    rw [classScope_eq, List.append_assoc, List.append_assoc]
+    refine not_clean_of_split _ _ { ident := e, what := "fixed member" }
+      { ident := e, what := "using <enum>" } ?_ ?_ (incompatible_of_ident _ _ rfl rfl)
+    · exact List.mem_map.mpr ⟨e, hm, rfl⟩
+    · exact List.mem_append_right _ (List.mem_append_right _ (List.mem_map.mpr ⟨e, he, rfl⟩))
+
+/-- Non-vacuity: each clause has an instance (they are the witnesses of
+`C07_names_counterexample`). -/
+example : s "backing_" ∈ fixedMembers { name := s "Foo" } ∧ s "Ok" ∈ fixedMembers { name := s "Foo" } ∧
+    isDollar (s "backing_") = false ∧ s "x_" = s "x" ++ s "_" ∧ s "has_x" = s "has_" ++ s "x" := by
   decide
 
 /-- Non-vacuity: an ordinary structure is clean, and meets the hypotheses of
